@@ -198,8 +198,16 @@ class MetadataManager:
                         f"but found: {current.last_updated_ms}"
                     )
 
-                # PHASE 2: Prepare new version
-                new_metadata.last_updated_ms = int(datetime.now().timestamp() * 1000)
+                # PHASE 2: Prepare new version. The OCC stamp must differ between
+                # any two versions of the chain: with a coarse or frozen clock two
+                # metadata-only commits (expire / delete-snapshot leave the
+                # snapshot id unchanged) got the same millisecond, so a committer
+                # holding the older one as its base still validated and
+                # overwrote the newer, acknowledged commit.
+                now_ms = int(datetime.now().timestamp() * 1000)
+                if current is not None and now_ms <= current.last_updated_ms:
+                    now_ms = current.last_updated_ms + 1
+                new_metadata.last_updated_ms = now_ms
 
                 # Resolve the current version (on CAS backends it was parsed from
                 # the hint read together with its ETag above).
